@@ -146,13 +146,14 @@ def pop(o):
     return "PDisable" if o["op"] == "disable" else "PEnable"
 
 
-def rstate(st):
+def rstate(st, issued=0):
     pc = "None"
     if st["has"]:
-        pc = "(Some (mkPC %d %s %s %s %s))" % (st["code"], Z(st["valid"]), Z(st["expire"]), bl(st["consumed"]),
-                                              Z(st["tried"]))
+        pc = "(Some (mkPC %d %s %s %s %s %s %s))" % (st["code"], bl(st.get("hasvalid")), Z(st["valid"]),
+                                                    bl(st.get("hasexpire")), Z(st["expire"]), bl(st["consumed"]),
+                                                    Z(st["tried"]))
     rid = "(Some %d)" % st["id"] if st["id"] else "None"
-    return "(mkR %s %s %s 0)" % (bl(st["disabled"]), pc, rid)
+    return "(mkR %s %s %s %d)" % (bl(st["disabled"]), pc, rid, issued)
 
 
 def to_coq(c):
@@ -208,7 +209,11 @@ def to_coq(c):
     if op == "pass":
         ops = "[" + "; ".join(pop(x) for x in c["ops"]) + "]"
         exp = "[" + "; ".join("(%d, %s)" % (r["r"], rstate(r["st"])) for r in o.get("pass") or []) + "]"
-        return "CPass %s %s %s" % (Z(c["expiry"]), ops, exp)
+        start = "init_state"
+        if c.get("start"):
+            st = dict(c["start"], disabled=False, id=0)
+            start = rstate(st, 1 if st["has"] else 0)
+        return "CPass %s %s %s %s" % (Z(c["expiry"]), start, ops, exp)
     raise ValueError(op)
 
 
@@ -223,6 +228,13 @@ def pass_oracle(c):
     preceded by at most ten refused attempts on that code."""
     cur = None  # dict(code, valid, expire, wrong, used)
     issued = 0
+    st0 = c.get("start")
+    if st0 and st0["has"]:
+        issued = 1
+        cur = {"code": 1, "valid": int(st0["valid"]) if st0.get("hasvalid") else None,
+               "expire": int(st0["expire"]) if st0.get("hasexpire") else None,
+               # a counter the operations cannot have produced is not read as a count of attempts
+               "wrong": st0["tried"] if 0 <= st0["tried"] <= 1000 else 0, "used": st0["consumed"]}
     for i, (op, res) in enumerate(zip(c["ops"], c["obs"].get("pass") or [])):
         if op["op"] == "new" and res["r"] == 0:
             issued += 1
@@ -237,6 +249,8 @@ def pass_oracle(c):
                     return "accepted-wrong-code", "attempt %d accepted with a code that is not the current one" % i
                 if cur["used"]:
                     return "accepted-twice", "attempt %d accepted although the code had been used" % i
+                if cur["valid"] is None or cur["expire"] is None:
+                    return "accepted-without-window", "attempt %d accepted on a record that has no validity window" % i
                 if not (cur["valid"] <= t <= cur["expire"]):
                     return "accepted-outside-window", "attempt %d accepted at %d outside [%d, %d]" % (
                         i, t, cur["valid"], cur["expire"])
@@ -521,6 +535,12 @@ def run(ck):
             agg = ck.coverage["sweep_classes"][c["fam"]][c["class"]]
             agg[0] += c.get("n", 0)
             agg[1] += c.get("accepted", 0)
+            continue
+        if c["op"] == "passconc":
+            ck.count(c["stream"], key=(c["note"], c.get("n", 0)))
+            if c["obs"].get("crash") or not c["obs"]["ok"]:
+                ck.violation("impl:passcode:concurrent-attempts", "%s: %s" % (c["note"], c["obs"].get("errtext")),
+                             {"case": c, "expected": "the code is accepted at most once", "observed": c["obs"]})
             continue
         if c["op"] == "roleverify":
             ck.count(c["stream"], key=(c["note"],))
